@@ -190,6 +190,7 @@ class Profile(object):
   use_augassign = True
   use_tuple_assign = True
   use_unusual = False
+  hostile_finally = False   # C05 only: try statements and jumps inside finally blocks
 
   def __init__(self, **kw):
     for k, v in kw.items():
@@ -211,7 +212,7 @@ def profile(name):
         nested_writes=False, use_T=False, use_del=False, use_list_mutation=False,
         use_factory=False, n_helpers=1, dead_code=0.0, use_calls=True)
   if name == 'c05':
-    return Profile(name='c05', unsafe_reads=0.0, implicit_exc=0.0, use_loop_else=True)
+    return Profile(name='c05', unsafe_reads=0.0, implicit_exc=0.0, use_loop_else=True, hostile_finally=True)
   if name == 'c06':
     return Profile(name='c06', unsafe_reads=0.0, implicit_exc=0.0, use_factory=False)
   if name == 'c11':
@@ -490,7 +491,7 @@ class Gen(object):
         opts.append(('while', 4))
       if p.use_for:
         opts.append(('for', 6))
-      if p.use_try and not fc.in_finally:
+      if p.use_try and (not fc.in_finally or p.hostile_finally):
         opts.append(('try', 3))
       if p.use_with:
         opts.append(('with', 2))
@@ -502,12 +503,12 @@ class Gen(object):
       opts.append(('unusual', 5))
     if p.use_comprehension:
       opts.append(('comp', 1))
-    if p.use_jumps and not fc.in_finally:
+    if p.use_jumps and (not fc.in_finally or p.hostile_finally):
       if fc.loop_depth > 0:
         opts.append(('break', 3))
         opts.append(('continue', 3))
       opts.append(('return', 2 if depth > 0 else 0))
-    if p.use_raise and depth > 0 and not fc.in_finally:
+    if p.use_raise and depth > 0 and (not fc.in_finally or p.hostile_finally):
       opts.append(('raise', 1))
     if p.use_del and blk.defined and fc.loop_depth == 0:
       opts.append(('del', 1))
@@ -833,7 +834,7 @@ class Gen(object):
       raises = 'raise ' in text
       fc.in_finally += 1
       fc.in_try += 1
-      if raises:
+      if raises and not self.p.hostile_finally:
         for _ in range(self.rng.randint(1, 2)):
           self.emit(ind + 1, 'T(%r, %d)' % (self.newtag(), self.rng.randint(0, 9)) if not self.p.pure else 'pass')
       else:
